@@ -581,3 +581,57 @@ PROPS["C14"] = dict(
                  "known findings outside which the theorem holds: doctor with rebuild_vec_index; exit without commit while the vec manifest exists only in memory and a pending record carries an embedding"],
     allowed_axioms=[],
 )
+
+PROPS["C26"] = dict(
+    corr_module="Corr.C26",
+    # runner: C26_run = the code AS IT IS (derived id = log sequence number); switch to C26_run_fixed once the fix is in /repo
+    streams={"hist": dict(runner="C26_run_fixed", in_t="C26_in", out_t="C26_out", shard=3, imports=["Model.Store", "Model.Derived"])},
+    n_quick=40, n_thorough=400,
+    harness_timeout=3000,
+    rule="histories on a real memory: puts of generated texts whose sentences the rule extractor turns into 0-3 cards (person names encode the put number, so a card's owner is read off its entity), "
+         "with extract_triplets / instant_index / enable_embedding / auto_tag varied, explicit unique URIs or default ones, whole and chunked documents (2.5-9 KB), documents big enough to cross the automatic checkpoint; "
+         "binary puts, updates with/without payload, deletes, commits, reopen, exit-without-commit + replay, vacuum, doctor (16 option sets) at random points; queue drains (next_enrichment_task / process_enrichment_task / complete_enrichment_task) and observations "
+         "(memories().cards(), enrichment manifest) after commits; fixed first cases: the recorded experiment (three put+commit pairs then a put: sequence 7, frame 3) and a single put; 'align' histories: doctor resets the log sequence, then put+commit pairs until sequence+1 = next_frame_id() so that a put OUTSIDE the known class is exercised; "
+         "compared with the model per op: result/frame_count/next_frame_id, card count, queue length, first task; per observation: every card's (id, source_frame_id) and every enrichment stamp (frame id, card ids); per drain: each task's frame id and whether its frame was found; "
+         "oracle on the implementation: card / record / queue ids against the document's id found by URI, frame_text_by_id(source_frame_id) contains the value; non-trivial = at least one card was extracted; distinct by digest of the op list",
+    level_text="Unbounded theorems over a model of the derived-data tail of put_internal on top of the C01/C06 frame-table model. Code as it is: the property is REFUTED (witness: three put+commit pairs then a put -> sequence 7, document frame 3, cards and enrichment record carry 7; already the first put of a fresh memory: sequence 1, frame 0); proved for every history outside the known class (put by put: right iff log sequence + 1 = next_frame_id(); inside the class every card, record and queue entry is wrong), and every put of every doctor-free history is shown to be inside it. Repaired code (id = next_frame_id() before the append): proved for ALL histories (cards, records, queue entries, instant-index frames, in memory and in the file's copy), plus the text clause with the rule extractor as an oracle returning substrings. Model tied to the code by histories on real memories compared op by op.",
+    level_note="Known finding F-C26-1 (derived-id-is-wal-seq), intended fix: capture self.next_frame_id() before the WAL append in put_internal and use it in the three `parent_seq as FrameId` places. Trusted: Coq kernel + vm_compute; hand-written model of the tail of put_internal, MemoriesTrack::add_cards/record_enrichment, EnrichmentQueueManifest push/remove, next/process/complete_enrichment_task (tied by correspondence); the rule extractor is an oracle (number of cards per put is an observed input; values are assumed to occur in the input text, checked on the implementation by the oracle); same side condition as C01 (drun_ok). The id of the instant-index temporary frame is modelled and covered by the theorems but is not observable through the public API (search drops hits whose frame is not committed; the commit rebuilds the index): no correspondence for that one use.",
+    trusted_base=["rule extractor (regex crate) is an oracle: per put the number of cards it returned is read from the implementation; the text clause assumes its values occur in its input",
+                  "oracle inputs of each op as in C01 (auto-checkpoint happened, extra log records, number of chunks)",
+                  "the harness calls Memvid::memories_mut() after each put (sets dirty) so that cards added after an automatic checkpoint are written by the next commit; the model does the same (Derived.touch)"],
+    assumptions=["as C01: no I/O errors; update/delete targets are Document frames", "extraction is never time-limited ('skim') on the generated texts, so needs_enrichment = instant_index && enable_embedding"],
+    allowed_axioms=[],
+)
+
+PROPS["C13"] = dict(
+    corr_module="Corr.C13",
+    streams={
+        "api": dict(runner="C13_api_run", in_t="C13_api_in", out_t="C13_api_out", shard=12, imports=["Model.VecSearch"]),
+        "nan": dict(runner="C13_nan_run", in_t="C13_api_in", out_t="C13_nan_out", shard=12, imports=["Model.VecSearch"]),
+        "mem": dict(runner="C13_mem_run", in_t="C13_mem_in", out_t="C13_mem_out", shard=4, imports=["Model.VecSearch"]),
+    },
+    n_quick=150, n_thorough=3000,
+    harness_timeout=3000,
+    rule="api: VecIndexBuilder -> finish -> VecIndex::decode -> search on 0-300 documents (0, 1, 2-8, 9-40, 41-120, 121-300), dimensions 1-64 (biased to 1-9 and the 8-lane edges 7/8/9, 15/16/17, 31/32/33, 63/64), "
+         "components ternary / small integers / binary (many exact ties), uniform floats, finite extremes (+-MAX, subnormals, 1e38: distances overflow to +inf), whole vectors duplicated, frame ids increasing / decreasing / repeated / sparse, "
+         "one document of another dimension in 1/12 of the cases; 2-5 queries each (a stored vector, empty, dimension +-1, integer, same style) with k in {0, 1, m-1, m, m+1, m+5, usize::MAX, random}; "
+         "compared: vector_count, dimension, and per query Panic or the exact hit list as (frame id, distance bits); decode(finish().bytes) must hold the documents bit for bit; "
+         "nan: the same with NaN/+-inf components (outside the guard: length and multiset of hits compared, a sort panic is not compared); "
+         "mem: histories of 3-90 ops (120-330 in thorough) on a real memory: enable_vec, put with embedding (fresh, duplicate, wrong dimension, none, empty in 1/8 of the histories), delete, delete-everything, commit, close+reopen, "
+         "search_vec before commit / after commit / after reopen with right, wrong and empty queries, the last queries repeated across a clean reopen; plus one scripted history through the dimension corners and one witness per known finding; "
+         "non-trivial = a search over at least 2 documents with k >= 1 answered; distinct by BLAKE3 of the case; "
+         "property oracle: brute-force recomputation with the real kernel (count = min(k, m), hits are distinct documents of the reference set with the kernel's distance bits, pairwise non-decreasing, no omitted document strictly closer than the last hit, wrong dimension rejected, right dimension answered, no panic, identical answers after reopen); tie order is not demanded by the oracle (only by the model comparison)",
+    level_text="Unbounded theorems over a line-by-line model of VecIndex::search (Uncompressed), VecIndexBuilder::finish, Memvid::search_vec, effective_vec_index_dimension, the embedding dimension contract of put_internal and the vector part of commit / delete / open, generic in the embedding type, the distance function and the comparison (no float axioms): for a total preorder on the non-NaN distance values the search returns min(k, m) hits, a sorted prefix of a permutation of all (frame, distance) pairs, no omitted document closer than a returned one, ties in insertion order, and this answer is the ONLY list meeting the property (sorted + stable is unique, so the model does not depend on std's sort algorithm: merge sort = insertion sort); for every history of put/delete/commit/reopen/search calls outside the known classes a query of another dimension is rejected before any distance is computed, a query of the index dimension gets the exact nearest neighbours of the committed active embeddings, search_vec never panics, and close+reopen yields the committed state (identical answers). The property as stated is REFUTED in two classes, recorded as known findings: an accepted empty embedding makes search_vec panic (F-C13-1), a NaN distance breaks the order or panics inside sort_by (F-C13-2). Model tied to the code by differential runs on the public VecIndex API and on real memories.",
+    level_note="Trusted: Coq kernel + vm_compute; hand-written model (tied by correspondence: exact hit lists as (frame id, f32 bits) on ~500 searches over the API and ~150 calls on real memories per quick run); the L2 kernel is abstract in the theorems (C38 models it) and instantiated at run time by the table of the real kernel's outputs; f32 ordering of non-negative non-NaN floats = ordering of their bit patterns; bincode round trip of Vec<VecDocument> is a Section hypothesis (C30) tested by the harness; which frames are committed/active and which id a put gets are oracle inputs (C01/C06/C14); debug-profile semantics for the kernel's length assertion. Outside the guard no_nan_distance std's sort is not modelled (it may panic).",
+    trusted_base=["distance kernel simd::l2_distance_simd is a Section variable `dist`; in the correspondence run it is the finite table of the real kernel's results for (query, vector) pairs",
+                  "distance values are compared as f32 bit patterns (None = NaN): non-negative non-NaN floats order like their bits",
+                  "bincode round trip of Vec<VecDocument> (decode(encode(docs)) = docs, all bytes read) is a hypothesis of C13_index_bytes_roundtrip; the harness checks it on every api case",
+                  "frame ids of puts, success of deletes and automatic checkpoints are read from the implementation (store driver) and are inputs of the history model"],
+    assumptions=["crate built without feature `vec` (as the harness does): no HNSW branch; with the feature on, indexes of >= 1000 vectors use an approximate graph for which the property is not claimed",
+                 "no_nan_distance: every distance from the query to an indexed embedding is not NaN (outside: known finding F-C13-2; count and membership still proved)",
+                 "no embedding of length 0 is put (outside: known finding F-C13-1) and embeddings/queries have fewer than 2^32 components (the dimension check casts to u32)",
+                 "segment catalog of vector segments is empty (never populated without feature parallel_segments); effective_vec_index_dimension's segment loop is modelled but not exercised",
+                 "before the first commit of an embedding, and for a memory that never had one, search_vec returns VecNotEnabled rather than an empty list; an emptied index returns [] for every query dimension (modelled as the code has it)",
+                 "update_frame and chunk embeddings are not part of the history model (index membership: C14)"],
+    allowed_axioms=[],
+)
